@@ -1,6 +1,7 @@
 """ideal back end (DESIGN §2.4): equalities of rational expressions under equational hypotheses,
 decided by Groebner-basis reduction (sympy). Only a zero remainder is a verdict ('proved');
 anything else is 'unknown'."""
+import os
 import signal
 import time
 from fractions import Fraction
@@ -79,6 +80,11 @@ class _Timeout(Exception):
     pass
 
 
+# wall-clock budgets of the computer-algebra back end are sized for an idle machine; a busy one (all 16 cores taken by other checks)
+# must not flip a verdict, so every budget is multiplied by this factor (a time-out is 'unknown', never a refutation)
+BUDGET_SCALE = float(os.environ.get('VT_IDEAL_BUDGET_SCALE', '3'))
+
+
 def _alarm(signum, frame):
     raise _Timeout()
 
@@ -90,7 +96,7 @@ def prove_eq(hyps_eq, goal_pairs, timeout=60, conv=None, extra_polys=()):
     t0 = time.time()
     conv = conv or Conv()
     old = signal.signal(signal.SIGALRM, _alarm)
-    signal.alarm(int(timeout))
+    signal.alarm(int(timeout * BUDGET_SCALE))
     try:
         polys = []
         for (l, r) in hyps_eq:
@@ -147,7 +153,7 @@ def prove_eq_linear(hyps_eq, goal_pairs, unknown_prefix='G', timeout=60):
     t0 = time.time()
     conv = Conv()
     old = signal.signal(signal.SIGALRM, _alarm)
-    signal.alarm(int(timeout))
+    signal.alarm(int(timeout * BUDGET_SCALE))
     try:
         eqs = [sp.together(conv.tr(l) - conv.tr(r)) for (l, r) in hyps_eq]
         eqs = [sp.fraction(e)[0] for e in eqs]
@@ -235,7 +241,7 @@ def prove_eq_mod(so3, goal_pairs, timeout=120, conv=None):
         conv = Conv(normal_form=so3.normal_form)
         conv.eager_syms = set(so3.gens)
     old = signal.signal(signal.SIGALRM, _alarm)
-    signal.alarm(int(timeout))
+    signal.alarm(int(timeout * BUDGET_SCALE))
     try:
         for (l, r) in goal_pairs:
             d = sp.together(conv.tr(l) - conv.tr(r))
